@@ -353,3 +353,30 @@ prop(
     technique="Lean 4 proof (simulation relation between the two machines, preserved by every table arm) + correspondence lane + H vs H u O oracle",
     design_ref="DESIGN.md section 4 C06",
 )
+
+
+prop(
+    "C16",
+    ["LolHtml.Thm.C16_Attrs"],
+    [{"lane": "attrs", "n_quick": 3000, "n_thorough": 32000}],
+    "lane attrs: one start tag (all attribute syntaxes, odd characters, '/' placements, upper case, non-ASCII bytes, html/svg/math context, cut anywhere) through the real HtmlRewriter (element handler: tag_name, attributes(), get/has_attribute, is_self_closing, can_have_content, namespace_uri, locations) vs model + Spec.Attrs; oracle: independent WHATWG attribute parser cross-checked with html5ever",
+    ["edits (set_attribute / remove_attribute / set_tag_name) followed by reads are package edit's", "the byte-level API model presumes the read accessors decode bijectively (windows-1252 in the lane); BOM-prefixed names/values are a finding"],
+    level_text="Lean 4 theorems for every input byte string: the lexer on the generated table follows Spec.Attrs (C16_outline, unfinished, across a chunk break), emit_tag hands exactly that outline to the sink (C16_emit_tag), lookups/context on the token (C16_lookup, C16_context); F8/F9 refuted statements.",
+    level_note="Trusted: Lean kernel; Spec.Attrs (WHATWG reading); model tied by lanes lex and attrs.",
+    technique="Lean 4 proof (symbolic evaluation of the DSL interpreter per state and byte class + induction over the input) + correspondence lane",
+    design_ref="DESIGN.md section 4 C16",
+)
+
+prop(
+    "C14",
+    ["LolHtml.Thm.C14_Locations"],
+    [{"lane": "attrs", "n_quick": 2000, "n_thorough": 20000}, {"lane": "lex", "n_quick": 2000, "n_thorough": 30000}],
+    LEX_RULE,
+    ["C14_ranges is for controllers that do not switch emission off (NoRemoval; handlers may rewrite and may fail); element content removal needs the lexer register invariant remaining_content_start <= lexeme_start (package inv)",
+     "contiguity of the chunks of one text node is stated (C14_text_contiguous_statement), not proved: needs adjacency of consecutive lexemes",
+     MODEL_SCOPE],
+    level_text="Lean 4 theorems: every token carries src = prevConsumed + raw with raw bytes = the input bytes (C14_src), prevConsumed grows by the bytes consumed (C14_offset), the tokens handed to the controller are ordered and pairwise disjoint within and across writes for every table with EmitsChecked, chunking and rewriting / failing (non-removing) controller (C14_ranges), attribute name/value locations are exactly the document ranges Spec.Attrs reads, inside the tag (C14_attr_locations). PARTIAL.",
+    level_note="Trusted: Lean kernel; model of dispatcher/transform_stream (lane lex), read API (lane attrs).",
+    technique="Lean 4 proof (located sink-preservation over the interpreter + dispatcher location invariant) + correspondence lanes",
+    design_ref="DESIGN.md section 4 C14",
+)
